@@ -367,6 +367,7 @@ def pi_contract(ctx):
   def c_(interp, fn, args, kwargs):
     mat = kwargs.get("matrix", args[0] if args else None)
     ev = spec.fresh_real("max_ev")
+    ctx.ghost["pi_max_ev"] = ev
     return T.opaque("pi_v", (mat.shape[0],)), T.asarray(ev)
   return c_
 
@@ -572,6 +573,20 @@ def mk_eigh(rel_eps, padded):
         ctx.oblige(f"{Q}_eigh.definedness: the base of every inverse p-th power is positive (ridge_epsilon > 0), whatever eigh returns",
                    sym.implies(eps > 0, base > 0), detail=site)
     ctx.require(f"{Q}_eigh.some-power-is-taken", seen_pows >= 1)
+    # the padding mask on the eigenvalues (the first n - padding_start of the ASCENDING spectrum are zeroed) is only right
+    # if every real direction already carries the ridge when the matrix is decomposed: what is handed to eigh must be the
+    # masked input PLUS ridge times the masked identity (then the padding zeros are the smallest eigenvalues - cited)
+    eg = ctx.ghost.get("eighs", [])
+    ctx.require(f"{Q}_eigh.structure: one eigendecomposition", len(eg) >= 1)
+    xop = eg[-1][0]
+    ev_sym = ctx.ghost.get("pi_max_ev")
+    tol = 1e-6
+    ridge = eps * (sym.smax(ev_sym, tol) if (rel_eps and ev_sym is not None) else sym.smax(1.0, tol))
+    inside = sym.sand(i0 < ps, j0 < ps) if padded else True
+    Am = sym.ite(inside, A.at((i0, j0)), 0.0) if padded else A.at((i0, j0))
+    Idm = sym.ite(sym.sand(i0 == j0, (i0 < ps) if padded else True), 1.0, 0.0)
+    ctx.oblige(f"{Q}_eigh.P2'.the decomposed matrix is the masked input + ridge * masked identity (ridge = ridge_epsilon * max(max_ev, tol) "
+               "when relative), so that padding eigenvalues are the smallest", xop.at((i0, j0)) == Am + ridge * Idm)
     ctx.require(f"{Q}_eigh.post.shape", len(res.shape) == 2 and sym.prove(sym.sand(res.shape[0] == n, res.shape[1] == n)))
     err = metrics.inverse_pth_root_errors.item()
     ctx.oblige(f"{Q}_eigh.P3'.reported-error-is-non-negative (a max of absolute values)", err >= 0)
